@@ -82,8 +82,13 @@ Record mcase := MkM { m_op : mop; m_x : Q; m_sx : Q; m_y : Q; m_sy : Q; m_val : 
 
 Definition Qclose (tol a b : Q) : bool := Qle_bool (Qabs (a - b)) (tol * Qabs b).
 
+(* sums and differences are judged at the scale of their operands: x - x of two equal readings, one of them converted there and back, is
+   a rounding residue of that scale and not exactly 0 *)
+Definition val_scale (op : mop) (x y w : Q) : Q :=
+  match op with MAdd | MSub => Qabs x + Qabs y + Qabs w | _ => Qabs w end.
+
 Definition mcase_ok (tol : Q) (c : mcase) : bool :=
-  andb (Qclose tol (m_val c) (measurandQ (m_op c) (m_x c) (m_y c)))
+  andb (let w := measurandQ (m_op c) (m_x c) (m_y c) in Qle_bool (Qabs (m_val c - w)) (tol * val_scale (m_op c) (m_x c) (m_y c) w))
   (andb (Qle_bool 0 (m_unc c))
         (let want := evalQ (envQ (m_x c) (m_sx c) (m_y c) (m_sy c)) (radicand (m_op c)) in
          let got := (m_unc c * m_unc c)%Q in
